@@ -1,6 +1,7 @@
 import BbRe.Model.FilePool
 import BbRe.Spec.ByteFile
 import BbRe.Lemmas.FilePoolRefine
+import BbRe.Lemmas.FilePoolAllocSpec
 /-!
 # C15 (file half) — independent sparse files, sectors conserved
 
@@ -38,6 +39,27 @@ theorem cfg_after (c : Cfg) (ops : List (Op × Oracle)) : (after c ops).cfg = c 
       unfold step
       cases x.1 <;> dsimp only <;> (try split) <;> (try rw [finish_fst]) <;> rfl
   exact this ops (init c)
+
+/-! ## the allocator is abstract -/
+
+/-- **"For any allocator satisfying the abstract spec".**  The allocator answers that the model
+accepts are exactly the `AllocOk` steps of `Spec/AllocSpec.lean` (the contract
+`Properties/C15Alloc.lean` proves for the bitmap allocator): every accepted answer is such a step
+on the abstraction of the model's allocated list, every answer the specification allows is
+accepted, and `FreeList` under the specification's precondition has the specification's effect.
+(An `AF` answer — allocation failure — is accepted in any state, which only widens the set of
+allocators covered.) -/
+theorem allocator_contract_is_AllocSpec (c : Cfg) (e : Env) (maximum first count : Nat) :
+    (∀ e', e.alloc c maximum = (e', .ok first count) →
+        AllocSpec.AllocOk c.nsec (absAlloc e.allocd) maximum first count (absAlloc e'.allocd)) ∧
+      (∀ rest, e.answers = .range first count :: rest →
+        AllocSpec.allocAnswerOk c.nsec (absAlloc e.allocd) maximum first count = true →
+        (e.alloc c maximum).2 = .ok first count) ∧
+      (∀ l, e.allocd.Nodup → AllocSpec.FreeListPre (absAlloc e.allocd) l →
+        AllocSpec.FreeListPost (absAlloc e.allocd) l (absAlloc (e.freeList l).allocd) ∧
+          (e.freeList l).dfree = e.dfree) :=
+  ⟨fun _ h => alloc_ok_spec h, fun rest ha hok => alloc_accepts_spec rest ha hok,
+    fun l hA hpre => freeList_spec_post e l hA hpre⟩
 
 /-! ## sector conservation -/
 
